@@ -23,6 +23,8 @@ pub enum ChainKind {
     NestedInAddition,
     NestedInChoiceExt,
     NestedInRoot,
+    /// the evolving type is a ROOT component of an extensible SEQUENCE that has additions of its own
+    NestedInExtensibleRoot,
     WithDefaultAddition,
 }
 
@@ -44,8 +46,15 @@ fn menu_c() -> Vec<(&'static str, Ty)> {
     vec![("z0", Ty::Bool), ("z1", Ty::int_r(0, 255)), ("z2", oct(2)), ("z3", oct(128))]
 }
 
+/// the FIRST addition already needs the two-octet length form (128 octets): the bit behind the presence flags is 1
+fn menu_m() -> Vec<(&'static str, Ty)> {
+    vec![("w0", oct(128)), ("w1", Ty::Bool), ("w2", oct(300)), ("w3", Ty::int_r(0, 255))]
+}
+
 pub fn chains() -> Vec<Chain> {
     vec![
+        Chain { name: "m", kind: ChainKind::Seq { set: false, roots: 1 }, additions: 4, quick_versions: 3 },
+        Chain { name: "n", kind: ChainKind::NestedInExtensibleRoot, additions: 3, quick_versions: 3 },
         Chain { name: "a", kind: ChainKind::Seq { set: false, roots: 1 }, additions: 8, quick_versions: 4 },
         Chain { name: "b", kind: ChainKind::Seq { set: false, roots: 2 }, additions: 8, quick_versions: 3 },
         Chain { name: "c", kind: ChainKind::Seq { set: true, roots: 2 }, additions: 4, quick_versions: 3 },
@@ -78,6 +87,7 @@ pub fn version_module(c: &Chain, v: usize) -> Module {
             let menu = match c.name {
                 "a" => menu_a(),
                 "b" => menu_b(),
+                "m" => menu_m(),
                 _ => menu_c(),
             };
             m.def("Tmsg", seq_version(*set, *roots, &menu, v))
@@ -105,6 +115,10 @@ pub fn version_module(c: &Chain, v: usize) -> Module {
         ChainKind::NestedInRoot => m
             .def("Tinner", seq_version(false, 1, &menu_a(), v))
             .def("Tmsg", Ty::seq(vec![Comp::new("h", Ty::int_r(0, 7)), Comp::new("w", Ty::r("Tinner")), Comp::new("t", Ty::int_r(0, 255))])),
+        ChainKind::NestedInExtensibleRoot => m.def("Tinner", seq_version(false, 1, &menu_a(), v)).def(
+            "Tmsg",
+            Ty::Seq { set: false, comps: vec![Comp::new("h", Ty::int_r(0, 7)), Comp::new("w", Ty::r("Tinner")), Comp::new("t", Ty::Bool), Comp::new("u", Ty::int_r(0, 255)).opt()], ext_after: Some(2) },
+        ),
         ChainKind::WithDefaultAddition => {
             let mut comps = vec![Comp::new("a", Ty::int_r(0, 7))];
             let menu: Vec<Comp> = vec![Comp::new("d", Ty::int_r(0, 255)).default(Lit::Int(9)), Comp::new("e", Ty::Bool), Comp::new("o", Ty::int_r(0, 7)).opt()];
